@@ -400,6 +400,136 @@ func c19Check(w *lib.Worker, c c19case, op c19op) {
 	}
 }
 
+// ---- the inherited path: a protected PARENT reached through an unprotected child ----
+
+type c19inhCase struct {
+	Kind   string    `json:"state"`
+	Driver string    `json:"driver"`
+	Prot   c19prot   `json:"parent_protection"`
+	Caller c19caller `json:"caller"`
+	Op     string    `json:"inherited_op"`
+}
+
+func c19BuildInherited(kind, driver string, p c19prot) (child, parent *core.Location) {
+	ctx := lib.Ctx()
+	store := lib.MemStore(ctx)
+	if driver == "sys" {
+		sw := newSysWorld(kind, sysOpts{TTL: sys.Forever, Store: store})
+		var err error
+		if parent, err = sw.sys.GetLocation(ctx, "P"); err != nil {
+			panic(err)
+		}
+		if child, err = sw.sys.GetLocation(ctx, "C"); err != nil {
+			panic(err)
+		}
+	} else {
+		child = lib.MustLoc(ctx, kind, "C", store)
+		parent = lib.MustLoc(ctx, kind, "P", store)
+		prov := core.NewSimpleLocationProvider(map[string]*core.Location{"C": child, "P": parent})
+		child.Provider, parent.Provider = prov, prov
+	}
+	must2(parent.AddFact(ctx, "pf", core.Map(lib.JM(`{"k":"parent-secret"}`))))
+	must2(parent.AddRule(ctx, "pr", core.Map(lib.JM(`{"when":{"pattern":{"e":"?e"}},"action":{"code":"'parent-rule-fired'"}}`))))
+	must2(child.AddFact(ctx, "cf", core.Map(lib.JM(`{"k":"child-fact"}`))))
+	must2(child.SetParents(ctx, []string{"P"}))
+	set := func(prop, val string) {
+		if err := parent.SetProp(ctx, "", prop, val); err != nil {
+			panic(err)
+		}
+	}
+	if p.WriteKey {
+		set("writeKey", "wk")
+	}
+	if p.ReadKey {
+		set("readKey", "rk")
+	}
+	if p.ReadOnly {
+		parent.SetReadOnly(ctx, true)
+	}
+	if p.Disabled {
+		set("enabled", "false")
+	}
+	return child, parent
+}
+
+func c19InheritedOps() []c19op {
+	return []c19op{
+		{Name: "SearchFacts(inherited)", Reveals: true, Run: func(ctx *core.Context, loc *core.Location) (string, error) {
+			sr, err := loc.SearchFacts(ctx, core.Map(lib.JM(`{"k":"?v"}`)), true)
+			if err != nil {
+				return "", err
+			}
+			return fmt.Sprint(foundList(sr)), nil
+		}},
+		{Name: "Query(pattern)", Reveals: true, Run: func(ctx *core.Context, loc *core.Location) (string, error) {
+			qr, err := loc.Query(ctx, `{"pattern":{"k":"?v"}}`)
+			if err != nil {
+				return "", err
+			}
+			return fmt.Sprint(lib.BindingsSetN(qr.Bss)), nil
+		}},
+		{Name: "ListRules(inherited)", Reveals: true, Run: func(ctx *core.Context, loc *core.Location) (string, error) {
+			ids, err := loc.ListRules(ctx, true)
+			sort.Strings(ids)
+			return fmt.Sprint(ids), err
+		}},
+		{Name: "SearchRules(inherited)", Reveals: true, Run: func(ctx *core.Context, loc *core.Location) (string, error) {
+			rs, err := loc.SearchRules(ctx, core.Map(lib.JM(`{"e":"1"}`)), true)
+			if err != nil {
+				return "", err
+			}
+			var ids []string
+			for id := range rs {
+				ids = append(ids, id)
+			}
+			sort.Strings(ids)
+			return fmt.Sprint(ids), nil
+		}},
+		{Name: "ProcessEvent", Reveals: true, Run: func(ctx *core.Context, loc *core.Location) (string, error) {
+			fr, cond := loc.ProcessEvent(ctx, core.Map(lib.JM(`{"e":"1"}`)))
+			v, r := frValues(fr)
+			if cond != nil {
+				return fmt.Sprint(v, r), cond
+			}
+			return fmt.Sprint(v, r), nil
+		}},
+		{Name: "RunJavascript(Env.Search)", Reveals: true, Run: jsRun(`Env.Search({k:'?v'})`)},
+		{Name: "RunJavascript(Env.Query)", Reveals: true, Run: jsRun(`Env.Query({pattern:{k:'?v'}})`)},
+	}
+}
+
+// c19CheckInherited: the parent's protection must hold when its data is reached
+// through a child that inherits from it.
+func c19CheckInherited(w *lib.Worker, c c19inhCase, op c19op) {
+	child, _ := c19BuildInherited(c.Kind, c.Driver, c.Prot)
+	res, err := op.Run(c19Ctx(c.Caller), child)
+	w.Eval(1)
+	w.AddTrans(1)
+	readAuth := !c.Prot.Disabled && (!c.Prot.ReadKey || c.Caller.R == "right")
+	tag := fmt.Sprintf("[%s/%s child C of parent P, parent protection=%s caller=%s] %s on C", c.Driver, c.Kind, c.Prot, c.Caller, op.Name)
+	opSig := strings.NewReplacer("(", "-", ")", "", " ", "-", ".", "-").Replace(op.Name)
+	reveals := strings.Contains(res, "parent-secret") || strings.Contains(res, "parent-rule-fired") || strings.Contains(res, "pr") || strings.Contains(res, "pf")
+	if !readAuth {
+		if reveals {
+			w.Violation(lib.Violation{Scenario: "access-inherited", Signature: "C19/parent-data-revealed-through-child-without-read-authority/" + opSig,
+				Summary: tag + fmt.Sprintf(": returned %q (err %v) although the caller has no read authority over P", res, err), Replay: c, Expected: "no data of P", Observed: res})
+			return
+		}
+		w.Nontrivial(fmt.Sprintf("inh|%s|%s|%v|%v|%s|%v", c.Driver, c.Kind, c.Prot, c.Caller, op.Name, err == nil))
+		return
+	}
+	tchild, _ := c19BuildInherited(c.Kind, c.Driver, c19prot{})
+	tres, terr := op.Run(lib.Ctx(), tchild)
+	if (terr == nil) != (err == nil) || tres != res {
+		w.Violation(lib.Violation{Scenario: "access-inherited", Signature: "C19/authorised-inherited-call-differs-from-unprotected-parent/" + opSig,
+			Summary: tag + fmt.Sprintf(": returned (%q, %v); with an unprotected parent it returns (%q, %v)", res, err, tres, terr), Replay: c, Expected: tres, Observed: res})
+		return
+	}
+	if (c.Prot != c19prot{}) {
+		w.Nontrivial(fmt.Sprintf("inh|%s|%s|%v|%v|%s|ok", c.Driver, c.Kind, c.Prot, c.Caller, op.Name))
+	}
+}
+
 func c19Run(w *lib.Worker) {
 	ops := c19Ops()
 	var prots []c19prot
@@ -414,6 +544,23 @@ func c19Run(w *lib.Worker) {
 	}
 	callers = append(callers, c19caller{"right", "right", true}, c19caller{"", "", true}, c19caller{"wrong", "right", true}, c19caller{"right", "wrong", true})
 	n := 0
+	for _, driver := range []string{"core", "sys"} {
+		for _, kind := range []string{"indexed", "linear"} {
+			for _, p := range prots {
+				for _, c := range callers {
+					n++
+					if !w.Mine(n) {
+						continue
+					}
+					w.AddStates(1)
+					for _, op := range c19InheritedOps() {
+						c19CheckInherited(w, c19inhCase{kind, driver, p, c, op.Name}, op)
+					}
+					w.AddTraces(1)
+				}
+			}
+		}
+	}
 	for _, driver := range []string{"core", "sys"} {
 		for _, kind := range []string{"indexed", "linear"} {
 			for si := range c19Setups {
@@ -451,6 +598,15 @@ func init() {
 		Budget: func(tier string) time.Duration { return 10 * time.Minute },
 		Run:    c19Run,
 		ReplayFn: func(w *lib.Worker, raw json.RawMessage) {
+			var ic c19inhCase
+			if json.Unmarshal(raw, &ic) == nil && ic.Op != "" {
+				for _, op := range c19InheritedOps() {
+					if op.Name == ic.Op {
+						c19CheckInherited(w, ic, op)
+					}
+				}
+				return
+			}
 			var c c19case
 			if err := json.Unmarshal(raw, &c); err != nil {
 				panic(err)
